@@ -33,6 +33,8 @@ def run(rep, idx, tier):
     rep.require("C06.5", 5)
     from .c01 import setters
     setters(rep, idx, rule="C06.5", only="csr/bus")
+    if getattr(c.t, "unsupported", None) and glue.low_slice_switch(rep, "C06.1", c.fi, "self.bus.addr"):
+        return
     if not require_supported(rep, "C06.1", c):
         return
     r = glue.decoder_roles(rep, "C06.1", c, "self.bus.addr")
